@@ -237,7 +237,7 @@ def violation_key(mode, events, verdict, pos):
 
 def design_level(ctx, mode):
     dump = os.path.join(ctx.tmp, "dl_" + mode)
-    r = core.tlc("DlLib", cfg_text=MC % (mode, "faithful", FULL), dump=dump, workers=4, timeout=900)
+    r = core.tlc("DlLib", cfg_text=MC % (mode, "faithful", FULL), dump=dump, workers=4, timeout=3000)
     ctx.add_tlc("MC_DlLib(%s,2libs,2funcs,1var)" % mode, r)
     g = G(dump + ".dot")
     missing = NEEDED[mode] - g.actions
@@ -269,7 +269,7 @@ def run(ctx):
 
     def variant(mode, v):
         try:
-            r = core.tlc("DlLib", cfg_text=MC % (mode, v, ""), workers=2, timeout=900)
+            r = core.tlc("DlLib", cfg_text=MC % (mode, v, ""), workers=2, timeout=3000)
             ctx.add_tlc("sanity:%s/%s" % (mode, v), r, require_ok=False, count_states=False)
             if r.ok or "is violated" not in r.out:
                 raise core.MachineryError("broken variant %s/%s of DlLib was not rejected by TLC:\n%s"
@@ -291,13 +291,13 @@ def run(ctx):
     exhaustive = True
     for mode in ("inline", "outofline"):
         g = graphs[mode]
-        depth = 4 if quick else 5
+        depth = 4 if quick or mode == "inline" else 5
         paths = g.all_upto(depth)
         cover, ncov = g.edge_cover(ctx.rng, 1000 if quick else None)
         if ncov < g.nedges:
             exhaustive = False
         paths += cover
-        paths += g.walks(ctx.rng, 200 if quick else 6000, 14)
+        paths += g.walks(ctx.rng, 200 if quick else 2000, 14)
         ctx.cov.setdefault("graph", {})[mode] = {"nodes": len(g.nodes), "transitions": g.nedges,
                                                  "all_sequences_upto": depth, "transitions_replayed": ncov}
         for p in paths:
@@ -305,7 +305,7 @@ def run(ctx):
             meta.append({"kind": "model-path", "mode": mode})
     nmodel = len(jobs)
     # ------------------------------------------------------------ code -> spec
-    for i in range(400 if quick else 12000):
+    for i in range(400 if quick else 3000):
         mode = "inline" if i % 2 else "outofline"
         jobs.append({"id": len(jobs), "mode": mode, "ops": random_history(ctx.rng, ctx.rng.randrange(20, 70))})
         meta.append({"kind": "random-history", "mode": mode})
